@@ -592,6 +592,40 @@ class BoolFlow:
         return self._val(st, op)
 
 
+def comparison_sites(body, pred, prov=None):
+    """Equality comparisons `a == b` / `a != b` (MIR BinaryOp or PartialEq::eq/ne call) whose operand roots satisfy
+    `pred(roots_a, roots_b)` in either order.  -> [(start_bb, start_si, result_local, value_meaning_equal, site_bb)]:
+    start_* is the first point at which the result is known (for BoolFlow)."""
+    from .core import Prov
+    prov = prov or Prov(body)
+    out = []
+    callmap = {c.bb: c for c in body.calls()}
+    for bi in sorted(body.live_blocks()):
+        t = body.term(bi)
+        if t["k"] == "call":
+            c = callmap.get(bi)
+            if c is not None and c.is_("PartialEq::eq", "PartialEq::ne") and t.get("dest") is not None and not t["dest"]["p"] and t.get("t") is not None:
+                l, r = prov.of_operand(c.args[0]), prov.of_operand(c.args[1])
+                if pred(l, r) or pred(r, l):
+                    out.append((t["t"], 0, t["dest"]["l"], 1 if c.is_("PartialEq::eq") else 0, bi))
+        for si, st in enumerate(body.stmts(bi)):
+            if st["k"] == "assign" and st["rv"]["k"] == "bin" and st["rv"]["op"] in ("Eq", "Ne") and not st["place"]["p"]:
+                l, r = prov.of_operand(st["rv"]["a"][0]), prov.of_operand(st["rv"]["a"][1])
+                if pred(l, r) or pred(r, l):
+                    out.append((bi, si + 1, st["place"]["l"], 1 if st["rv"]["op"] == "Eq" else 0, bi))
+    return out
+
+
+def feasible_after(body, site, equal):
+    """Blocks that can still execute after the comparison `site` (from comparison_sites) came out equal
+    (`equal=True`) or unequal: three-valued propagation of the result through bool locals, `!`, `&`, `|`, moves and
+    bool switches - so `if a != b { return }`, `let skip = a != b || ..; if skip { return }` and a helper returning
+    that bool (inlined) are all the same to a rule."""
+    sb, ssi, res, eqv, _ = site
+    flow = BoolFlow(body, sb, ssi, {res: eqv if equal else 1 - eqv})
+    return set(flow.in_state.keys()) | ({sb} if ssi else set())
+
+
 # ---------------------------------------------------------------------------------------------
 # Expression trees: the *shape* of an arithmetic value (provenance roots alone cannot tell
 # ((t + d) / p) * p from (t / p) * p + (d / p) * p).
